@@ -472,18 +472,26 @@ def short_form_loader_agreement(a):
             return
         a.fns.append(rx.split("?")[-1])
         alts = []
+        # the serde loader may also look at the KIND of the payload (serde_yaml::Value discriminant): kept as the symbol pk
+        val = ex.arg_env.get("_1")
+        pkd = ex.proj.get(("disc", val[1])) if (label.startswith("serde") and val is not None and val[0] == "opaque") else None
         for p in ex.paths:
             if not calls(p, "insert"):
                 continue
-            atoms = [c for c in p.pc if "|in_single|" in c or "|in_seq|" in c]
+            atoms = [c for c in p.pc if "|in_single|" in c or "|in_seq|" in c or (pkd is not None and pkd in c)]
             alts.append("(and true " + " ".join(atoms) + ")")
         W[label] = "(or false " + " ".join(alts) + ")"
+        if pkd is not None:
+            W[label] = W[label].replace(pkd, "pk")
     labels = list(W)
-    term = f"(or (xor {W[labels[0]]} {W[labels[2]]}) (xor {W[labels[1]]} {W[labels[2]]}))"
-    a.ob.check("loader/short-form/loaders-agree", ["(declare-const |in_single| Bool)", "(declare-const |in_seq| Bool)"], [], term,
-               "for a tag with arbitrary membership in the two short-form tables (in_single, in_seq): the validate loader wraps a scalar payload, "
-               "and wraps a sequence payload, under exactly the condition under which the serde loader wraps any payload - so `!Tag v` loads as "
-               "the same value whichever command reads it. wrap conditions read from MIR: " + "; ".join(f"{k}: {v}" for k, v in W.items())[:600])
+    # serde_yaml::Value: Null 0, Bool 1, Number 2, String 3, Sequence 4, Mapping 5, Tagged 6 (vendored serde_yaml 0.9; mapping / tagged
+    # payloads are outside the property's quantifier)
+    scalar_kind = "(and (<= 0 pk) (<= pk 3))"
+    term = (f"(or (and {scalar_kind} (xor {W[labels[0]]} {W[labels[2]]})) (and (= pk 4) (xor {W[labels[1]]} {W[labels[2]]})))")
+    a.ob.check("loader/short-form/loaders-agree", ["(declare-const |in_single| Bool)", "(declare-const |in_seq| Bool)", "(declare-const pk Int)"], [], term,
+               "for a tag with arbitrary membership in the two short-form tables (in_single, in_seq) and a payload of arbitrary kind pk: the "
+               "validate loader wraps a scalar payload under exactly the condition under which the serde loader wraps a scalar payload, and "
+               "likewise for a sequence payload - so `!Tag v` loads as the same value whichever command reads it. wrap conditions read from MIR: " + "; ".join(f"{k}: {v}" for k, v in W.items())[:600])
     item = a.ob.items[-1]
     if item["status"] == "refuted":
         item["replay"] = replay_short_form_loaders(a)
